@@ -248,6 +248,12 @@ def corpus_C02(tier):
         insts += corpus.budget_sweep(rng, 1000 * (bi + 1), b, nref, step=step)
     n_extra = 60 if tier == "quick" else 1500
     insts += [corpus.general(rng, 900000 + i) for i in range(n_extra)]
+    # dimensions at and above logging.n_to_print_whole_x_vector (6): the solver's log lines use their second format there; with averaging the evaluation
+    # and point numbers in them differ
+    for j in range(6 if tier == "quick" else 60):
+        nn = int(rng.integers(6, 9))
+        insts.append(dict(id=950000 + j, seed=int(rng.integers(0, 2 ** 31 - 1)), n=nn, m=nn + 1, prob=corpus._pick(rng, ["nl", "lin"]), rhoend=1e-2, maxfun=int(rng.integers(12, 45)),
+                          nsamples=corpus._pick(rng, ["2", "3", "alt3", "1"])))
     return insts
 
 
@@ -413,6 +419,14 @@ def corpus_C04(tier):
             up["regression.num_extra_steps"] = 1
             inst.update(restarts="soft", maxunsucc=4, rhoend=1e-1, maxfun=120)
         out.append(inst)
+    # regulariser + internal scaling on a small box around the origin (h at the scaled point is far larger than h at the user's point) with soft restarts:
+    # the best point is often held only in the saved slot at exit, so saved and stored values must be comparable
+    for j in range(16 if tier == "quick" else 200):
+        nn = int(rng.integers(1, 4))
+        inst = dict(id=660000 + j, seed=int(rng.integers(0, 2 ** 31 - 1)), n=nn, m=nn + 1, prob="lin", reg="l1", lam=float(corpus._pick(rng, [0.1, 0.5, 1.0])), bounds="both", scaling=True,
+                    bscale=float(corpus._pick(rng, [0.05, 0.2])), mag=float(corpus._pick(rng, [0.01, 0.03])), x0place=["in"] * nn, timeout=300.0,
+                    restarts="soft", maxunsucc=int(rng.integers(2, 5)), rhoend=float(corpus._pick(rng, [1e-2, 1e-3])), maxfun=int(rng.integers(40, 120)))
+        out.append(inst)
     # trust-region-increase exits under soft restarts with the budget expiring at every evaluation (few Dykstra sweeps provoke model increases)
     bases = [dict(n=2, m=3, prob="nl", proj=["ball", "ball", "box"], restarts="soft", maxunsucc=3, rhoend=1e-3, user_params={"dykstra.max_iters": 10}),
              dict(n=3, m=4, prob="nl", proj=["ball", "half", "ball"], restarts="soft", maxunsucc=3, rhoend=1e-3, user_params={"dykstra.max_iters": 5})]
@@ -434,6 +448,7 @@ def corpus_C08(tier):
         dict(n=2, m=3, prob="nl", rhoend=1e-2, npt="2n+1", diag=True),
         dict(n=2, m=3, prob="nl", rhoend=1e-2, proj=["ball", "half"]),
         dict(n=4, m=5, prob="nl", rhoend=1e-2, growing=1, restarts="soft", maxunsucc=2),
+        dict(n=2, m=2, prob="ros3", rhoend=1e-2, print_progress=True, diag=True),
         dict(n=2, m=2, prob="ros3", rhoend=1e-2, restarts="hardnew", maxunsucc=2),
     ]
     if tier == "thorough":
@@ -476,7 +491,17 @@ def corpus_C08(tier):
 def corpus_C09(tier):
     rng = _rng(9)
     n = 70 if tier == "quick" else 1500
-    return [corpus.proj_inst(rng, i + 1) for i in range(n)]
+    out = [corpus.proj_inst(rng, i + 1) for i in range(n)]
+    # ONE-sided bounds (bounds=(lower, None) / (None, upper)) together with user sets, the solution where a bound and a set boundary are both active
+    for j in range(16 if tier == "quick" else 300):
+        nn = int(rng.integers(2, 4))
+        inst = corpus.base(rng, n + j + 1, n=nn, m=nn, prob="target")
+        inst.update(proj=[corpus._pick(rng, ["ball", "half"])] + (["half"] if j % 3 == 0 else []), bounds=corpus._pick(rng, ["lower", "upper"]), corner=True, x0place=["in"] * nn, x0feas="in",
+                    maxfun=40, mag=1.0, rhoend=1e-3, timeout=120.0)
+        if j % 4 == 1:
+            inst.update(restarts="soft", maxunsucc=2, maxfun=60, x0feas="far")
+        out.append(inst)
+    return out
 
 
 def corpus_C10(tier):
@@ -502,6 +527,24 @@ def corpus_C10(tier):
             inst.update(rhoend=float(corpus._pick(rng, [1e-1, 1e-2, 1e-3])), maxfun=150, prob="ros3", n=2, m=2)
             inst.pop("restarts", None)
         out.append(inst)
+    # regulariser + internal scaling + a 'sufficiently small' threshold that the run can reach: the test must use h at the USER's point
+    for j in range(16 if tier == "quick" else 200):
+        nn = int(rng.integers(1, 4))
+        inst = dict(id=720000 + j, seed=int(rng.integers(0, 2 ** 31 - 1)), n=nn, m=nn + 1, prob="lin", reg="l1", lam=float(corpus._pick(rng, [0.1, 0.5, 1.0])), bounds="both", scaling=True,
+                    bscale=float(corpus._pick(rng, [5.0, 20.0])), mag=float(corpus._pick(rng, [3.0, 10.0])), x0place=["in"] * nn, maxfun=40, timeout=300.0,
+                    rel_tol=float(corpus._pick(rng, [0.3, 0.6, 0.9])))
+        out.append(inst)
+    # finite residuals whose squares overflow (every objective value is +inf): whatever the exit, it must not be reported as a success
+    for j in range(12 if tier == "quick" else 120):
+        inst = dict(id=710000 + j, seed=int(rng.integers(0, 2 ** 31 - 1)), n=int(rng.integers(1, 4)), m=3, prob=corpus._pick(rng, ["nl", "lin"]), rhoend=float(corpus._pick(rng, [1e-2, 1e-4])),
+                    maxfun=60, rscale=float(corpus._pick(rng, [1e155, 1e160, 1e200])))
+        if j % 3 == 1:
+            inst.update(restarts="soft", maxunsucc=2)
+        elif j % 3 == 2:
+            inst.update(restarts=corpus._pick(rng, ["hard", "hardnew"]), maxunsucc=2)
+        if j % 4 == 0:
+            inst.update(noiseflag=True)
+        out.append(inst)
     # restart machinery live: eager auto-detection, noise, hard and soft restarts, the budget at every position
     AUTO = {"restarts.auto_detect.history": 3, "restarts.auto_detect.min_chgJ_slope": 0.0, "restarts.auto_detect.min_correl": 0.0}
     for bi, b in enumerate([dict(n=2, m=2, prob="ros", restarts="hard", maxunsucc=2, noise_sd=1e-2, rhoend=1e-8, user_params=dict(AUTO)),
@@ -526,9 +569,24 @@ def corpus_C11(tier):
             inst["rhoend"] = 1e-2
             inst["maxfun"] = int(rng.integers(40, 140))
         out.append(inst)
+    # a reduced initial set (growing phase) on weakly sensitive residuals (|J| ~ 1e-7, below the growing phase's singular-value floor): once the set is
+    # complete the returned Jacobian must be the plain fit again
+    for j in range(12 if tier == "quick" else 150):
+        nn = int(rng.integers(2, 5))
+        inst = dict(id=910000 + j, seed=int(rng.integers(0, 2 ** 31 - 1)), n=nn, m=nn + int(rng.integers(0, 3)), prob="lin", growing=1, rhoend=1e-3, maxfun=int(rng.integers(3 * nn + 4, 12 * nn)))
+        inst.update(dict(zerocol=True) if j % 2 == 0 else dict(ascale=float(corpus._pick(rng, [1e-7, 1e-8]))))
+        if j % 3 == 0:
+            inst.update(bounds="both", x0place=["in"] * nn)
+        out.append(inst)
     for j in range(12 if tier == "quick" else 200):
         inst = dict(id=900000 + j, seed=int(rng.integers(0, 2 ** 31 - 1)), n=2, m=3, prob=corpus._pick(rng, ["lin", "nl"]), bounds="both", scaling=True, x0place=["in", "in"],
                     restarts="soft", maxunsucc=3, rhoend=1e-2, maxfun=int(rng.integers(35, 110)), diag=True, npt=corpus._pick(rng, ["n+1", "2n+1"]))
+        out.append(inst)
+    for j in range(16 if tier == "quick" else 200):
+        # internal scaling with HARD restarts (both ways of obtaining the restart point's residual): a later run that improves hands over its Jacobian,
+        # which must come back in the user's coordinates like the first run's
+        inst = dict(id=920000 + j, seed=int(rng.integers(0, 2 ** 31 - 1)), n=2, m=2, prob="ros3", bounds="both", scaling=True, bscale=float(corpus._pick(rng, [2.0, 4.0])), x0place=["in", "in"],
+                    restarts=corpus._pick(rng, ["hardnew", "hardnew", "hard"]), maxunsucc=3, rhoend=float(corpus._pick(rng, [1e-1, 3e-2, 1e-2])), maxfun=int(rng.integers(50, 160)))
         out.append(inst)
     for j in range(12 if tier == "quick" else 200):
         # reduced initial set that grows by new directions each iteration, x0 on several bounds, budget ending soon after the set is complete
@@ -571,6 +629,27 @@ def corpus_C18(tier):
         # an infinite / overflow-sized value enters the interpolation set mid-run: the fit fails and a soft restart follows (same run counter => rows of one run)
         inst = dict(id=830000 + j, seed=int(rng.integers(0, 2 ** 31 - 1)), n=2, m=2, prob="ros3", restarts="soft", maxunsucc=3, rhoend=1e-2, maxfun=80, diag=True,
                     fault=dict(k=int(rng.integers(4, 34)), kind=corpus._pick(rng, ["pinf", "huge"])))
+        out.append(inst)
+    # rhobeg less than twice rhoend: the very first reduction of rho lands within a factor alpha2 of rhoend (delta must not drop below the new rho)
+    for j in range(12 if tier == "quick" else 150):
+        re_ = float(corpus._pick(rng, [0.6, 0.05, 1e-3]))
+        inst = dict(id=840000 + j, seed=int(rng.integers(0, 2 ** 31 - 1)), n=int(rng.integers(1, 4)), m=3, prob=corpus._pick(rng, ["nl", "lin", "ros3"]), rhoend=re_,
+                    rhobeg=re_ * float(rng.uniform(1.05, 1.95)), maxfun=40, diag=True)
+        if inst["prob"] == "ros3":
+            inst.update(n=2, m=2)
+        if j % 3 == 0:
+            inst.update(restarts="soft", maxunsucc=2, maxfun=60)
+        out.append(inst)
+    # as many (or more) regression steps after a successful iteration as there are points: the incumbent must survive them
+    for j in range(12 if tier == "quick" else 150):
+        nn = int(rng.integers(2, 4))
+        inst = dict(id=850000 + j, seed=int(rng.integers(0, 2 ** 31 - 1)), n=nn, m=nn + 1, prob=corpus._pick(rng, ["nl", "ros3", "nl"]), rhoend=1e-3, maxfun=70, diag=True,
+                    user_params={"regression.num_extra_steps": nn + 1 + int(rng.integers(0, 2))})
+        if inst["prob"] == "ros3":
+            inst.update(n=2, m=2, user_params={"regression.num_extra_steps": 3 + int(rng.integers(0, 2))})
+        if j % 3 == 0:
+            inst.update(restarts="hard", maxunsucc=3, rhoend=1e-2, maxfun=120,
+                        user_params={"regression.num_extra_steps": 1, "regression.increase_num_extra_steps_with_restart": 1})
         out.append(inst)
     # the radius cap: a minimiser ~1e13 away makes delta grow by very successful steps until it reaches 1e10
     for j in range(4 if tier == "quick" else 40):
